@@ -65,7 +65,7 @@ class C18(Prop):
     assumptions = ["an operation 'raises' by receiving an empty login reply", "refused connect = the device's listener is closed"]
     anchors = ["aioswitcher.api:SwitcherApi.connect", "aioswitcher.api:SwitcherApi.disconnect", "aioswitcher.api:SwitcherApi.__aenter__",
                "aioswitcher.api:SwitcherApi.__aexit__"]
-    min_evaluations = {"quick": 1_000, "thorough": 20_000}
+    min_evaluations = {"quick": 10_000, "thorough": 150_000}
     budget_s = {"quick": 90, "thorough": 900}
 
     async def setup(self, ctx):
@@ -88,7 +88,7 @@ class C18(Prop):
                     if i % nshards == shard:
                         yield {"type": t, "history": list(h), "exhaustive": True}
                     i += 1
-        n_rand = {"quick": 400, "thorough": 30_000}[tier]
+        n_rand = {"quick": 4_000, "thorough": 60_000}[tier]
         for j in range(n_rand):
             if i % nshards == shard:
                 r = env.rng("C18", seed, j)
